@@ -265,7 +265,8 @@ func c14Run(w *run.Worker) {
 				if w.Expired() {
 					return
 				}
-				stmts := append([]*rt.Node{rt.Assign("=", Id("x"), I(0))}, body...)
+				// the first statement has a visible effect: nothing of a script that is entered after the signal was observed runs
+				stmts := append([]*rt.Node{rt.Call("p", I(0)), rt.Assign("=", Id("x"), I(0))}, body...)
 				stmts = append(stmts, rt.Call("p", I(99), Id("x")))
 				src, _ := rt.PrintProg(stmts, nil)
 				if !c14Check(w, map[string]string{"a.p": src}, isV2, horizon) {
@@ -291,6 +292,12 @@ func c14Run(w *run.Worker) {
 			"x = 0\nfor ;; { x = x + 1 }",
 			"x = 0\nfor ;; { if x < 3 { x = x + 1\ncontinue }\np(x) }",
 			"for ;; { if true { if true { for ;; {} } } }",
+			// wait loops: non-empty bodies made of compound statements only
+			"for ;; { if false { break } }",
+			"x = 0\nfor ;; { if x < 0 { } else { } }",
+			"for ;; { for v in [] { } }",
+			"for ;; { if false { break } elif false { continue } else { for v in [] { } } }",
+			"for v in [1, 2, 3] { for ;; { if false { break } } }",
 		}
 		for _, s := range specials {
 			if stop || !w.Take() {
@@ -339,7 +346,7 @@ func init() {
 		ID:    "C14",
 		Level: "fault_enumeration",
 		Rule: "every loop-bearing program of total size <=3 statements (nesting <=3) over {p(x), x = x + len(\"a\") (v2: x = id(x) + one()), add_key(k, len(\"abc\") + x), a raising statement, break, continue; if conditions contain a call} x if/else/elif x the 12 three-clause for shapes (post clause absent, an assignment, a probe call) x for-in over list, string and map, " +
-			"plus the same loops inside a script reached through use(), plus hand-written nested empty infinite loops (also two use() levels deep), on both interpreters; " +
+			"plus the same loops inside a script reached through use(), plus hand-written nested empty infinite loops and wait loops whose bodies hold compound statements only (also two use() levels deep), on both interpreters; " +
 			"fault = the poll index k at which the exit signal first reports true, ALL k = 1..min(polls of the uninterrupted run, horizon 40 quick / 200 thorough); " +
 			"oracle: returns nil, final point = point at poll k of the uninterrupted run, probe trace = its prefix at poll k; non-trivial = distinct (interpreter, poll count, trace) of the uninterrupted runs",
 		Assumptions: []string{"a run that has not returned 20 s after being told to stop is re-run once and then reported as ignoring its signal (the only wall-clock decision)"},
